@@ -36,6 +36,11 @@ def load_known():
         return json.load(f).get("findings", [])
 
 
+# scratch runs (seed sweeps against a copy of the repository) write their evidence and replays elsewhere
+EVIDENCE_DIR = os.environ.get("PYVC_EVIDENCE_DIR") or os.path.join(ROOT, "evidence")
+REPLAY_DIR = os.environ.get("PYVC_REPLAY_DIR") or os.path.join(ROOT, "replays")
+
+
 def run_replay(script_path, timeout=600):
     """replay scripts exit 1 when the violation is reproduced on the real code, 0 when not, anything else = error"""
     env = dict(os.environ)
@@ -55,7 +60,7 @@ def run_replay(script_path, timeout=600):
 
 
 def write_replay(prop, ob, spec, extra=None):
-    d = os.path.join(ROOT, "replays", prop)
+    d = os.path.join(REPLAY_DIR, prop)
     os.makedirs(d, exist_ok=True)
     base = os.path.join(d, _safe(ob.id if isinstance(ob, Obligation) else str(ob)))
     script = base + "_replay.py"
@@ -280,7 +285,7 @@ def triage(vc, mod, report, args):
 def run_native_standins(vc, prop, report, code):
     """bounded stand-ins that run the real code natively on a stated, finite set of inputs (never counted as proved)"""
     for k, chk in enumerate(getattr(vc, "native_standins", [])):
-        d = os.path.join(ROOT, "replays", prop)
+        d = os.path.join(REPLAY_DIR, prop)
         os.makedirs(d, exist_ok=True)
         script = os.path.join(d, f"{prop}_bounded_standin_{k}_replay.py")
         with open(script, "w") as f:
@@ -378,8 +383,8 @@ def write_evidence(vc, mod, report, args, seed, wall, code):
     ev = {"property_id": vc.prop, "tier": args.tier, "seed": seed, "level": level, "coverage": cov,
           "assumptions": sorted(vc.assumptions) + sorted(getattr(mod, "NOT_DECIDED", []) if mod else []),
           "wall_s": round(wall, 2), "violations": len(report["violations"])}
-    os.makedirs(os.path.join(ROOT, "evidence"), exist_ok=True)
-    with open(os.path.join(ROOT, "evidence", f"{vc.prop}.json"), "w") as f:
+    os.makedirs(EVIDENCE_DIR, exist_ok=True)
+    with open(os.path.join(EVIDENCE_DIR, f"{vc.prop}.json"), "w") as f:
         json.dump(ev, f, indent=1, default=str)
 
 
